@@ -947,6 +947,34 @@ def _check_methods(which, case, boo, S, sysd, psi, rng):
     return None
 
 
+FRAME_PHI = "frame:the-psi-values-held-by-the-object(ParticlePhi)-are-not-written"
+
+
+def _with_object_frame(cls):
+    """time_average, spatial_corr and time_corr are queries on the psi values computed at construction: they must not write them
+    (later calls on the same object read them)"""
+    cn, en = cls.clause_names, cls.ensures
+
+    def clause_names(self, case):
+        return list(cn(self, case)) + [FRAME_PHI]
+
+    def ensures(self, ctx, case, inp, out):
+        yield from en(self, ctx, case, inp, out)
+        phi = inp.get("phi")
+        if not isinstance(phi, A.Arr):
+            yield FRAME_PHI, False
+            return
+        ev = [e for e in out.state.events if e[0] == "store" and e[1] == phi.sid]
+        if not ev:
+            yield FRAME_PHI, True
+        for e in ev:
+            yield FRAME_PHI, (z3.Not(z3.And(*e[3])) if e[3] else False)
+    cls.clause_names, cls.ensures = clause_names, ensures
+    return cls
+
+
+for _c in (TimeAverage, TimeCorr, SpatialCorr):
+    _with_object_frame(_c)
 UNITS = [LthOrder(), TimeAverage(), TimeCorr(), SpatialCorr(), Init()]
 # callee contracts of other properties used at call sites: their units are re-verified with this check
 from contracts.common import callee_units as _callee_units   # noqa: E402
